@@ -98,6 +98,17 @@ def _concat_parts(e: ast.expr):
     return [e]
 
 
+def _boolish(e: ast.expr) -> bool:
+    """expressions whose value is always a bool"""
+    if isinstance(e, ast.Compare) or (isinstance(e, ast.UnaryOp) and isinstance(e.op, ast.Not)):
+        return True
+    if isinstance(e, ast.Call) and isinstance(e.func, ast.Name) and e.func.id in ("isinstance", "issubclass", "hasattr", "callable", "any", "all", "bool"):
+        return True
+    if isinstance(e, ast.BoolOp):
+        return all(_boolish(v) for v in e.values)
+    return isinstance(e, ast.Constant) and isinstance(e.value, bool)
+
+
 class ExprCanon(ast.NodeTransformer):
     """expression-level canonical forms; `const(name)` returns (True, value) for a foldable constant"""
 
@@ -117,6 +128,9 @@ class ExprCanon(ast.NodeTransformer):
 
     def visit_UnaryOp(self, node):
         self.generic_visit(node)
+        # `not not p` is `p` when p is already a bool (a comparison, a negation, isinstance(...) and the like)
+        if isinstance(node.op, ast.Not) and isinstance(node.operand, ast.UnaryOp) and isinstance(node.operand.op, ast.Not) and _boolish(node.operand.operand):
+            return node.operand.operand
         if isinstance(node.op, ast.Not) and isinstance(node.operand, ast.Compare) and len(node.operand.ops) == 1 and type(node.operand.ops[0]) in (ast.Is, ast.IsNot, ast.In, ast.NotIn, ast.Eq, ast.NotEq):
             return negate(node.operand)
         # De Morgan: negations are pushed inwards (`not (a and b)` -> `not a or not b`); evaluation order and short-circuiting are the same
@@ -269,6 +283,10 @@ class ExprCanon(ast.NodeTransformer):
         # string concatenation with a literal part -> f-string
         if isinstance(node.op, ast.Add):
             parts = _concat_parts(node)
+            if parts is not None:
+                # str('lit') is 'lit' (a module constant folded into the call by the loader: `str(a) + str(SUFFIX)`)
+                parts = [p.args[0] if isinstance(p, ast.Call) and isinstance(p.func, ast.Name) and p.func.id == "str" and len(p.args) == 1 and not p.keywords
+                         and isinstance(p.args[0], ast.Constant) and isinstance(p.args[0].value, str) else p for p in parts]
             if parts is not None and any(isinstance(p, (ast.Constant, ast.JoinedStr)) for p in parts) and any(not isinstance(p, ast.Constant) for p in parts):
                 vals = []
                 for p in parts:
